@@ -141,7 +141,7 @@ pub fn conform_bytes(ctx: &Ctx, family: &str, case: &dyn Fn() -> String, bytes: 
         }
     }
     if ok && e != o {
-        let d = first_diff(&e, &o);
+        let d = if ctx.violation_count.load(std::sync::atomic::Ordering::Relaxed) > 200 { "mismatch (details suppressed after 200 violations) : ".to_string() } else { first_diff(&e, &o) };
         let sig = format!("mismatch:{}", sig_of(d.split(" : ").next().unwrap_or("")));
         viol(sig, d);
         ok = false;
